@@ -204,7 +204,8 @@ func (p *policy) getMemSupply(node Node, cpus cpuset.CPUSet) (dram, pmem, hbm id
 		}
 	} else {
 		mems := p.getMemsForCpus(cpus)
-		dram, pmem, hbm = p.splitMemsByType(mems)
+		// CPU-local nodes without memory can't be part of the memory set
+		dram, pmem, hbm = p.splitMemsByType(p.sys.FilterNodes(mems.Members(), system.NodeHasMemory))
 
 		if dram.Size() > 0 {
 			log.Info("    %s DRAM by CPU locality: %s", node.Name(), dram)
